@@ -182,6 +182,21 @@ def readDataOld (chunks : List (List Byte)) (d : Data) : Data × Option RErr :=
 def readFlat (bs : List Byte) (d : Data) : Data × Option RErr :=
   loop flatFull flatFull (fuelFor bs.length) bs d
 
+/-- NOT in the code — what a caller gets that lets a `ReadData` call be cut off and then calls
+    it again on the same `bufio.Reader` (a read deadline that expires while the transport is
+    silent, followed by a retry). `pre` is what the transport had delivered when the first call
+    gave up, `post` what it delivers afterwards. `ReadData` is not resumable: the first call
+    has consumed all of `pre` (complete records are applied to the data; of the record it was
+    in, the header and the part of the body that had arrived are gone) and returns an I/O error
+    (the timeout; for the flat reader on `pre` alone: EOF / unexpected EOF); the second call
+    starts a fresh record loop on `post` with the data as mutated so far. If the first call
+    had already returned (end of message or a refusal within `pre`), that is the result. -/
+def readRestart (pre post : List Byte) (d : Data) : Data × Option RErr :=
+  match readFlat pre d with
+  | (d1, some .eof) => readFlat post d1
+  | (d1, some .ueof) => readFlat post d1
+  | res => res
+
 /-! ## Record encoding (pack functions) -/
 
 /-- packheader: type with the critical bit, body length truncated to 16 bits. -/
